@@ -2,6 +2,7 @@ package stream
 
 import (
 	"fmt"
+	"math"
 	"strconv"
 	"strings"
 	"sync"
@@ -119,9 +120,37 @@ func encodeOne(v any) string {
 	}
 	// 数值按 SQL 语义归一：1(int)/1.0(float64)/1(uint) 视作相等。否则 JSON 流解码
 	// 出的 float64 键与类型化维度表的 int 键永不匹配，INNER JOIN 静默丢行。
+	// 整数类型按十进制精确编码（经 float64 会使 2^53 以上的不同整数相撞）；整数值的浮点数
+	// 用 'f',0 展开为同样的十进制串，故 1 / 1.0 / uint8(1) 仍是同一键，float64(1<<60) 与
+	// int64(1<<60) 也是同一键。
+	switch x := v.(type) {
+	case int:
+		return "n:" + strconv.FormatInt(int64(x), 10)
+	case int64:
+		return "n:" + strconv.FormatInt(x, 10)
+	case int32:
+		return "n:" + strconv.FormatInt(int64(x), 10)
+	case int16:
+		return "n:" + strconv.FormatInt(int64(x), 10)
+	case int8:
+		return "n:" + strconv.FormatInt(int64(x), 10)
+	case uint:
+		return "n:" + strconv.FormatUint(uint64(x), 10)
+	case uint64:
+		return "n:" + strconv.FormatUint(x, 10)
+	case uint32:
+		return "n:" + strconv.FormatUint(uint64(x), 10)
+	case uint16:
+		return "n:" + strconv.FormatUint(uint64(x), 10)
+	case uint8:
+		return "n:" + strconv.FormatUint(uint64(x), 10)
+	}
 	if f, ok := numericKeyFloat(v); ok {
 		if f == 0 {
-			f = 0 // 归一 -0.0 → 0
+			return "n:0" // 归一 -0.0 → 0
+		}
+		if f == math.Trunc(f) && !math.IsInf(f, 0) {
+			return "n:" + strconv.FormatFloat(f, 'f', 0, 64)
 		}
 		return "n:" + strconv.FormatFloat(f, 'f', -1, 64)
 	}
